@@ -48,7 +48,8 @@ class Eval:
                     if p is not None and p["k"] == "DeclRefExpr" and p["n"] == root and const_value(q) == 0:
                         return t["op"] == "!="
             return None
-        self.blocks = edpe_blocks(f, dkey, v, extra_decide=nonnull)
+        self.edges = set()
+        self.blocks = edpe_blocks(f, dkey, v, extra_decide=nonnull, edges_out=self.edges)
 
     def expr(self, e, st):
         e = strip(e)
@@ -138,8 +139,8 @@ class Eval:
                 continue
             out_of[b] = st
             for s in cfg.blocks[b].rsucc:
-                if s not in self.blocks:
-                    continue
+                if s not in self.blocks or (b, s) not in self.edges:
+                    continue        # an edge the dispatch value rules out
                 new = self.join(inn.get(s), st)
                 if new != inn.get(s):
                     inn[s] = new
@@ -212,10 +213,28 @@ def _token_dkeys(f):
     return out
 
 
+def _helper_dispatch_args(P, f):
+    """`X->type` keys for token variables X that f hands to a first-party helper which dispatches on that parameter."""
+    out = set()
+    for c in f.calls():
+        h = P.resolve(f, c.get("callee") or "")
+        if h is None or not P.first_party(h) or h is f:
+            continue
+        hk = _token_dkeys(h)
+        for i2, a in enumerate(c["c"][1:]):
+            sa = strip(a)
+            if sa is None or sa["k"] != "DeclRefExpr" or "token" not in (sa.get("t") or "") or i2 >= len(h.params):
+                continue
+            if h.params[i2][0] + "->type" in hk:
+                out.add(sa["n"] + "->type")
+    return out
+
+
 def r_level(P, chk):
     rid = "R-LEVEL"
     chk.rule(rid, "outline writers: for every heading kind, level(stacked heading) and level(new heading) are the same linear "
-                  "function c + k*base_header_level of the kind (EDPE + constant propagation on both sides of the closing comparison)")
+                  "function c + k*base_header_level of the kind (EDPE + constant propagation on both sides of the closing comparison, "
+                  "level helpers followed)")
     kinds = heading_kinds(P)
     if len(kinds) < 8:
         chk.fail_broken("R-LEVEL: raw_level_for_header no longer enumerates the 8 heading kinds")
@@ -226,45 +245,56 @@ def r_level(P, chk):
             continue
         if not any(x["k"] == "MemberExpr" and x["n"] == "outline_stack" for x in f.walk()):
             continue
-        dkeys = sorted(_token_dkeys(f))
+        dkeys = sorted(_token_dkeys(f) | _helper_dispatch_args(P, f))
         if len(dkeys) < 2:
             continue
+        evals = {}
+
+        def ev_for(dk, v):
+            if (dk, v) not in evals:
+                evals[(dk, v)] = Eval(P, f, dk, v)
+            return evals[(dk, v)]
         for cmp_ in f.walk():
             if cmp_["k"] != "BinaryOperator" or cmp_["op"] not in ("<", ">", "<=", ">="):
                 continue
             a, b = strip(cmp_["c"][0]), strip(cmp_["c"][1])
-            if a is None or b is None or a["k"] != "DeclRefExpr" or b["k"] != "DeclRefExpr" or a.get("dk") != "Var" or b.get("dk") != "Var":
+            if a is None or b is None:
+                continue
+            if not all(s2["k"] in ("DeclRefExpr", "CallExpr") for s2 in (a, b)):
+                continue
+            if any(s2["k"] == "DeclRefExpr" and s2.get("dk") != "Var" for s2 in (a, b)):
                 continue
             # which token does each side depend on?
             table = {}
-            for side in (a, b):
+            for si, side in enumerate((a, b)):
                 for dk in dkeys:
                     forms = []
                     for en, v in sorted(kinds.items()):
-                        ev = Eval(P, f, dk, v)
+                        ev = ev_for(dk, v)
                         st = ev.state_before(cmp_)
-                        forms.append(None if st is None else st.get(side["n"], TOP))
+                        forms.append(None if st is None else ev.expr(side, st))
                     if all(x is not None and x is not TOP for x in forms) and len(set(forms)) > 1:
-                        table[(side["n"], dk)] = forms
-            sa = [dk for (nm, dk) in table if nm == a["n"]]
-            sb = [dk for (nm, dk) in table if nm == b["n"]]
+                        table[(si, dk)] = forms
+            sa = [dk for (si, dk) in table if si == 0]
+            sb = [dk for (si, dk) in table if si == 1]
             pairs = [(x, y) for x in sa for y in sb if x != y]
             if not pairs:
                 continue
             n_cmp += 1
             da, db = pairs[0]
-            fa, fb = table[(a["n"], da)], table[(b["n"], db)]
+            fa, fb = table[(0, da)], table[(1, db)]
             bad = [en for (en, _), x, y in zip(sorted(kinds.items()), fa, fb) if x != y]
-            desc = "%s:%s: %s(%s) %s %s(%s)" % (f.unit.base, f.name, a["n"], da, cmp_["op"], b["n"], db)
+            na, nb = key(a)[:40], key(b)[:40]
+            desc = "%s:%s: %s(%s) %s %s(%s)" % (f.unit.base, f.name, na, da, cmp_["op"], nb, db)
             chk.obligation(rid, desc, ok=not bad)
             if bad:
-                i = [en for en, _ in sorted(kinds.items())].index(bad[0])
+                i3 = [en for en, _ in sorted(kinds.items())].index(bad[0])
 
                 def show(x):
                     return "%d%+d*base" % x if x[1] else "%d" % x[0]
-                chk.violation(rid, "level:%s:%s:%s" % (f.unit.base, f.name, a["n"]), f.where(cmp_),
+                chk.violation(rid, "level:%s:%s:%s" % (f.unit.base, f.name, na.split("(")[0]), f.where(cmp_),
                               "for a %s heading %s evaluates to %s but %s to %s (base = base header level): the two sides of "
                               "the closing test are on different scales (%d of %d kinds disagree)" % (
-                                  bad[0], a["n"], show(fa[i]), b["n"], show(fb[i]), len(bad), len(kinds)))
+                                  bad[0], na, show(fa[i3]), nb, show(fb[i3]), len(bad), len(kinds)))
     chk.floor(rid, n_cmp, 2, "closing comparisons between two heading levels in outline writers")
     chk.analysed[rid] = {"comparisons": n_cmp, "heading_kinds": sorted(kinds)}
